@@ -393,7 +393,7 @@ def gen(rep, tier):
                 if nparts == 1:
                     yield 'polygon', rng.choice(sts), [parts[0], None, parts[0]], rng.choice([0, 1]), True
     # (d) random structured stream
-    nrand = 60 if quick else 3000
+    nrand = 60 if quick else 800
     for kind in ('polygon', 'multipolygon'):
         for st in G.SUBTYPES:
             for _ in range(nrand):
